@@ -1,8 +1,8 @@
 #!/verif/.venv/bin/python
 # Replay of a solver counterexample against the unmodified code (no shims).
-# property=C03 kernel=two label=c03:start_exact
+# property=C03 kernel=align label=c03:align_reaches_latest
 import sys
 sys.path[:0] = ["/repo/pulser-core", "/repo/pulser-simulation", "/verif"]
 from symx.replay import replay
-sys.exit(replay(check='checks.c03', kernel='two', shape={'own': {'clock': 1, 'local': False, 'slots': [], 'mod': True, 'pj': 'derived', 'targets_a': ['q0'], 'targets_b': ['q1']}, 'other': {'clock': 1, 'local': True, 'slots': ['pulseA', 'delay', 'target', 'pulseA'], 'mod': True, 'pj': 'derived', 'targets_a': ['q0'], 'targets_b': ['q2']}, 'op': ['add_pulse', 'min-delay', 'A'], 'maxseq': False, 'nbarriers': 1},
-                assignment={'own.min_duration': 1, 'own.tr': 1, 'other.min_duration': 1, 'other.tr': 1, 'other.min_retarget': 0, 'other.fixed_retarget': 0, 'other.s0.dur': 1, 'other.s1.dur': 1, 'other.s2.dur': 0, 'other.s3.dur': 1, 'buf#1.start': 0, 'buf#1.end': 0, 'buf#2.start': 0, 'buf#2.end': 0, 'new.dur': 1, 'barrier0': 1, 'buf#3.start': 0, 'buf#3.end': 0, 'buf#4.start': 0, 'buf#4.end': 0, 'buf#5.start': 0, 'buf#5.end': 0, 'buf#6.start': 0, 'buf#6.end': 0}, label='c03:start_exact'))
+sys.exit(replay(check='checks.c03', kernel='align', shape={'chans': [('g', 'ryd_glob', None), ('l', 'ryd_loc', 'q0')], 'pre': [['d', 'p'], ['p', 'd']], 'at_rest': True},
+                assignment={'d0_0/k': 2, 'd0_1/k': 2, 'd1_0/k': 6, 'd1_1/k': 2, 'buf#1.start': 0, 'buf#1.end': 1, 'buf#2.start': 0, 'buf#2.end': 2, 'buf#3.start': 0, 'buf#3.end': 18, 'buf#4.start': 0, 'buf#4.end': 19}, label='c03:align_reaches_latest'))
